@@ -55,6 +55,26 @@ def eval_call(I: Interp, n: ast.Call, env: Env):
         return I.V.hasattr_(I, v, a, n)
     if isinstance(n.func, ast.Name) and n.func.id in ("cast",) and not env.has("cast"):
         return I.eval(n.args[1], env)
+    if (isinstance(n.func, ast.Attribute) and n.func.attr == "update" and isinstance(n.func.value, ast.Name) and len(n.args) == 1
+            and env.has(n.func.value.id) and isinstance(env.lookup(n.func.value.id), (set, SSet))):
+        base = env.lookup(n.func.value.id)
+        arg = I.eval(n.args[0], env)
+        if isinstance(arg, (SList, SSet)) or isinstance(base, SSet):
+            from .types import Abs as _Abs
+
+            ety = base.ety if isinstance(base, SSet) else (arg.ety if isinstance(arg, (SList, SSet)) else _Abs("Any"))
+            x = z3.Const(I.ctx.fresh_name("sx"), sort_of(ety))
+            old = z3.Select(base.pred, x) if isinstance(base, SSet) else (z3.Or([x == pack(I.ctx, e, ety) for e in base]) if base else z3.BoolVal(False))
+            if isinstance(arg, SList):
+                i_ = z3.Int(I.ctx.fresh_name("ui"))
+                xe = x if arg.ety == ety else None
+                new = z3.Exists([i_], z3.And(0 <= i_, i_ < arg.nz(), pack(I.ctx, unpack(I.ctx, z3.Select(arg.arr, i_), arg.ety), ety) == x))
+            elif isinstance(arg, SSet):
+                new = z3.Select(arg.pred, x) if arg.ety == ety else z3.BoolVal(False)
+            else:
+                new = z3.Or([x == pack(I.ctx, e, ety) for e in I.concrete_iter(arg)] or [z3.BoolVal(False)])
+            env.set(n.func.value.id, SSet(z3.Lambda([x], z3.Or(old, new)), ety))
+            return None
     if (isinstance(n.func, ast.Attribute) and n.func.attr == "add" and isinstance(n.func.value, ast.Name) and len(n.args) == 1
             and env.has(n.func.value.id) and isinstance(env.lookup(n.func.value.id), (set, SSet))):
         base = env.lookup(n.func.value.id)
@@ -202,11 +222,15 @@ def run_function(I: Interp, qual, fn, module, cls, bound: dict, closure_env=None
     try:
         if isinstance(fn, ast.Lambda):
             return I.eval(fn.body, env)
+        ret = None
         try:
             exec_block(I, extract.strip_docstring(fn.body), env)
         except ReturnSig as r:
-            return r.value
-        return None
+            ret = r.value
+        if fr.is_generator and not I.V.c.ghost.get("yield_hook"):
+            # an inlined generator function: the caller receives a generator object (its yielded events + return value)
+            return Obj("generator", {"trace": I.V.frame_trace(I, fr), "value": ret})
+        return ret
     finally:
         I.depth -= 1
         I.frames.pop()
@@ -556,6 +580,16 @@ def builtin_method(I: Interp, base, name, args, kwargs, node=None):
         if name == "count":
             return sum(1 for x in base.items if I.branch(I.py_eq(x, args[0])))
     if isinstance(base, SList):
+        if name == "index" and len(args) == 1:
+            # first position of the element (term equality; PS5 for hashable keys)
+            x = pack(ctx, args[0], base.ety)
+            k = z3.Int(ctx.fresh_name("idx"))
+            j = z3.Int(ctx.fresh_name("j"))
+            found = z3.Exists([j], z3.And(0 <= j, j < base.nz(), z3.Select(base.arr, j) == x))
+            I.implicit("ValueError", found, "index-found", node)
+            ctx.assume(z3.And(0 <= k, k < base.nz(), z3.Select(base.arr, k) == x,
+                              z3.ForAll([j], z3.Implies(z3.And(0 <= j, j < k), z3.Select(base.arr, j) != x))))
+            return SV(k, INT)
         if name == "append":
             list_append(ctx, base, args[0])
             return None
